@@ -55,6 +55,10 @@ func runC20(c *Ctx) {
 	c20InputCopy(c, p)
 	c20SearchInLoop(c, p)
 	c20AccumulatorScan(c, p)
+	r.Rule("cursor-search-amortised", "in pkg/sql/tokenizer a linear search over input[cursor:] is followed, on every path to a non-failing return, by a cursor advance computed from the search result")
+	if ncs := c20CursorSearch(c, p, "pkg/sql/tokenizer", nil); ncs == 0 {
+		r.OK("cursor-search-amortised", "scan", "-", "no tokenizer function searches the rest of the input")
+	}
 	// both rules expect zero reports on the repaired tree: positive controls keep them from passing vacuously
 	if c.Controls {
 		if cp := c.Control("c20"); cp != nil {
@@ -63,6 +67,8 @@ func runC20(c *Ctx) {
 			c20Accum(c, cp, fired, "gosqlxsa/controls/c20")
 			r.Control("rescan", fired["(*c20.Scanner).All|locate->locate"] && !fired["(*c20.Scanner).All|locateResumed->locateResumed"] && fired["resumed|(*c20.Scanner).locateResumed|memo"] && fired["(*c20.Scanner).All|locateForgetful->locateForgetful"], "controls/c20 Scanner.All calls locate (rescans, reported), locateResumed (memo read and written back, accepted) and locateForgetful (memo read but not written on the early return, reported)")
 			r.Control("string-accumulation", fired["c20.joinParts|concat#1"] && !fired["c20.joinBuilder|concat#1"], "controls/c20 joinParts (s += in a loop) and joinBuilder (strings.Builder)")
+			c20CursorSearch(c, cp, "gosqlxsa/controls/c20", fired)
+			r.Control("cursor-search-amortised", fired["(*c20.Scanner).peekQuote|search#1"] && !fired["(*c20.Scanner).skipToQuote|search#1"], "controls/c20 Scanner.peekQuote (searches the rest, may return without moving) and skipToQuote (moves to what it found, or fails)")
 		}
 	}
 }
